@@ -146,6 +146,77 @@ func runC03(c *fw.Ctx) {
 		}
 	}
 
+	// ---- SEQUENCES of unary operations on ONE tensor object (Tan then Tanh, Sin then Sinh, Exp twice ...): every result is the function
+	// of that operand, whatever was applied to the same object just before; and CHAINS of scalings x.Scale(u1).Scale(u2), each step
+	// the correctly rounded product of the previous result (3 then 7, 1e-200 twice, 1e200 then 1e-250: exact comparison) ----
+	for i := 0; i < c.Pick(500, 10000); i++ {
+		c.Case(func(k *fw.K) {
+			r := k.Rng
+			shape := RandShape(r, 0, 3, 3)
+			if r.Intn(3) == 0 {
+				x := Shuffled(r, Unique(r, shape, 0.05, 3))
+				if r.Intn(3) == 0 {
+					for j := range x.Data {
+						x.Data[j] *= []float64{1e300, 1e-300, 1e150, 3e250}[r.Intn(4)]
+					}
+				}
+				t := rt.MustLeaf(x, r.Intn(2) == 0)
+				cur, want := t, x.Clone()
+				var us []float64
+				for n := 2 + r.Intn(3); n > 0; n-- {
+					u := []float64{3, 7, 0.1, 1e-200, 1e200, 1e-250, -1.5, 0.3, 1e-160, 1e160}[r.Intn(10)]
+					us = append(us, u)
+					var next tensor.Tensor
+					if p := call(func() { next = cur.Scale(u) }); p != nil || next == nil {
+						k.Failf("Scale chain %v: panic=%v", us, p)
+						return
+					}
+					for j := range want.Data {
+						want.Data[j] *= u
+					}
+					cur = next
+					if e := rt.Compare(cur, want, 0, 0, nil, 0); e != nil {
+						k.Case = map[string]any{"family": "chain of scalings", "x": x, "factors": us}
+						k.Failf("x.Scale chain with the factors %v on shape %v (each step the rounded product of the previous result): %v", us, shape, e)
+						return
+					}
+				}
+				k.Key("scale-chain/%s/%d", shapeKey(shape), len(us))
+				k.Count("scale_chain_cases", 1)
+				return
+			}
+			x := Shuffled(r, Unique(r, shape, 0.1, 1.4))
+			t := rt.MustLeaf(x, r.Intn(2) == 0)
+			ops := []string{"tan", "tanh", "sin", "sinh", "cos", "cosh", "exp", "log"}
+			var seq []string
+			for n := 3 + r.Intn(6); n > 0; n-- {
+				in := ref.Instr{Op: ops[r.Intn(len(ops))]}
+				if len(seq) > 0 && r.Intn(2) == 0 { // the sibling of the previous function right after it
+					sib := map[string]string{"tan": "tanh", "tanh": "tan", "sin": "sinh", "sinh": "sin", "cos": "cosh", "cosh": "cos", "exp": "log", "log": "exp"}
+					in.Op = sib[seq[len(seq)-1]]
+				}
+				seq = append(seq, in.Op)
+				want, err := ref.Apply(in, []*ref.T{x})
+				if err != nil {
+					k.Failf("harness: %v", err)
+					return
+				}
+				got, err, p := exec(in, []tensor.Tensor{t})
+				if p != nil || err != nil || got == nil {
+					k.Failf("%s after %v on one tensor object: panic=%v err=%v", in.Op, seq[:len(seq)-1], p, err)
+					return
+				}
+				if e := rt.Compare(got, want, 0, 1e-12, nil, 0); e != nil {
+					k.Case = map[string]any{"family": "unary operations in sequence on one object", "x": x, "sequence": seq}
+					k.Failf("the sequence %v applied to ONE tensor object of shape %v: the result of the last call: %v", seq, shape, e)
+					return
+				}
+			}
+			k.Key("unary-sequence/%s/%d", shapeKey(shape), len(seq))
+			k.Count("unary_sequence_cases", 1)
+		})
+	}
+
 	// ---- same-shape binary operations, comparisons, Equals ----
 	for _, shape := range shapes {
 		for _, op := range c03Same {
